@@ -854,10 +854,15 @@ pub fn run(r: &Run) {
     r.prop("mutated-streams", r.tier.pick(120_000, 4_000_000), || arb_case(false), check);
     r.prop("valid-streams-fragmented", r.tier.pick(20_000, 500_000), || arb_case(true), check);
     r.assume(BURST_RULE);
+    r.assume(super::c03b::RULE);
+    r.prop("bfd-session", r.tier.pick(15_000, 600_000), super::c03b::arb_case, super::c03b::check);
     r.slow(|| r.prop("session-burst", r.tier.pick(1_500, 40_000), arb_burst, check_burst));
 }
 
 pub fn replay(sub: &str, case: &Value) -> Result<CheckResult, String> {
+    if sub == "bfd-session" {
+        return super::c03b::replay(case);
+    }
     if sub == "session-burst" {
         return Ok(check_burst(&decode_case(case)?));
     }
